@@ -19,9 +19,10 @@ import os
 import re
 import sys
 
+_ROOT = os.path.dirname(os.path.dirname(os.path.abspath(__file__)))
 REPO = os.environ.get("REGRESS_REPO", "/repo")
-OUT = os.environ.get("GEN_OUT", "/verif/lean/RegressModel/Gen")
-ORACLE = os.environ.get("ORACLE_DIR", "/verif/oracle")
+OUT = os.environ.get("GEN_OUT", os.path.join(_ROOT, "lean", "RegressModel", "Gen"))
+ORACLE = os.environ.get("ORACLE_DIR", os.path.join(_ROOT, "oracle"))
 
 IV_BITS = 21  # bits per code point in a packed interval (first | last << 21)
 
